@@ -3,11 +3,14 @@ sys.path.insert(0, os.path.dirname(os.path.abspath(__file__)))
 from core_unit import CORE_UNIT
 U = copy.deepcopy(CORE_UNIT)
 R = copy.deepcopy(CORE_UNIT); R.update({'name': 'ref', 'repo': 'reference', 'symbol_prefix': 'ref_', 'wrappers': None}); R['require_functions'] = ['Interpreter_Run', 'vdec_Interpreter']
-SAMPLE = [0, 1, 4, 23, 57, 96, 144, 200, 300, 383]
+SAMPLE = [0, 1, 4, 23, 57, 96, 144, 164, 200, 242, 300, 383]      # 164 (tstb) and 242 (movpdw) carry listed findings
+ALWAYS_ABORT = ('trap', 'retd', 'retid', 'retidc', 'mov_dvm', 'mov_dvm_to')
 CHECKS = ['bounds', 'pointer', 'overflow', 'shift', 'div']
 def entry_ob(k, name, why):
-    return {'id': 'safe_%03d_%s' % (k, name), 'entry': 'h_entry_safe', 'enforce': [], 'replace': [], 'unwind': 17, 'timeout': 600, 'defines': ['-DENTRY=%d' % k],
-            'expect_classes': {'assertion': 1}, 'min_obligations': 10, 'checks': CHECKS, 'standard_checks': False, 'object_bits': 12, 'why': why}
+    return {'id': 'safe_%03d_%s' % (k, name), 'entry': 'h_entry_safe', 'enforce': [], 'replace': [], 'timeout': 600, 'defines': ['-DENTRY=%d' % k],
+            'expect_classes': {'assertion': 1}, 'min_obligations': 10, 'checks': CHECKS, 'standard_checks': False, 'object_bits': 12, 'why': why,
+            'unwind': 41 if name.startswith('exp') else 17,          # Exp scans up to 39 bit positions
+            'canary': name not in ALWAYS_ABORT}                       # these handlers never return (UnimplementedException / UNREACHABLE): a legal exit, the harness end is unreachable by design
 def dynamic_obligations(metas, tier, wd):
     cur, ref = metas['proc'], metas['ref']
     changed = {f for f in set(cur['text_sha']) | set(ref['text_sha']) if cur['text_sha'].get(f) != ref['text_sha'].get(f) and not f.startswith('vdec_')}
